@@ -61,14 +61,17 @@ type jobctlWorld struct {
 	prevJob        *execution.Job   // previous authoritative version (monotonicity)
 	userEdited     bool
 	foreign        map[string]bool
+	foreignRec     map[string]bool // foreign pod created under the name of a RECORDED task (F22)
+	ownSucceeded   map[string]bool // the Job's OWN pod of that name reached phase Succeeded (kubelet ground truth)
 	indexHashes    []string
-	decidedAtSync  string // non-empty: the strategy was already decided by what the running sync can see
-	failBias       bool   // kubelet terminations are mostly failures (retry-focused histories)
-	ttlVisible     bool   // every task of the Job was in the pod cache when the controller issued the TTL delete
-	staleRecreate  bool   // E-FreshJobOnCreate left (known finding F19): two incarnations of one task name
-	lateFinish     bool   // a pod that is being deleted often still runs to completion before it goes away
-	kubeletDead    bool   // the kubelet never finishes terminating a deleted pod (node unreachable)
-	forceKind      *int   // scenarios: the next kubelet termination is of this kind (0 = Succeeded, 2 = Failed)
+	decidedAtSync  string               // non-empty: the strategy was already decided by what the running sync can see
+	failBias       bool                 // kubelet terminations are mostly failures (retry-focused histories)
+	ttlVisible     bool                 // every task of the Job was in the pod cache when the controller issued the TTL delete
+	ttlPassStatus  *execution.JobStatus // the status the pass that issued the TTL delete submitted afterwards (any result)
+	staleRecreate  bool                 // E-FreshJobOnCreate left (known finding F19): two incarnations of one task name
+	lateFinish     bool                 // a pod that is being deleted often still runs to completion before it goes away
+	kubeletDead    bool                 // the kubelet never finishes terminating a deleted pod (node unreachable)
+	forceKind      *int                 // scenarios: the next kubelet termination is of this kind (0 = Succeeded, 2 = Failed)
 }
 
 func (w *jobctlWorld) now() int64 { return w.clk.Now().UnixNano() }
@@ -316,9 +319,20 @@ func (w *jobctlWorld) work() {
 		// the finished condition is written after the delete call of the same sync
 		if j := w.apiJob(); j != nil {
 			ttl := jobutil.GetTTLAfterFinished(j, w.cfg)
-			// (when the delete made the status write conflict, the finished condition never
-			// reaches the server; the liveness of its tasks was judged at the delete instant)
-			if cf := j.Status.Condition.Finished; cf != nil && cf.FinishTimestamp.Add(ttl).UnixNano() > w.ttlDeleteAt {
+			// The clause is judged on the finished condition the DELETING pass acted on (the form of the
+			// Lean theorem C13.ttl_not_early).  That is the stored one when the pass submitted no status
+			// afterwards; when it did — the delete makes that write conflict, so it never reaches the
+			// server — it is the submitted one.  The two differ only when the pass recomputed the finish
+			// time, e.g. by adopting an unrecorded task that was invisible (outside E-OrphanVisible) to
+			// the pass that had finished the Job: judging the stored, superseded finish time there was a
+			// false alarm of this monitor (the liveness of the tasks is judged at the delete instant).
+			cf := j.Status.Condition.Finished
+			if ps := w.ttlPassStatus; ps != nil && ps.Condition.Finished != nil &&
+				(cf == nil || !cf.FinishTimestamp.Equal(&ps.Condition.Finished.FinishTimestamp)) {
+				cf = ps.Condition.Finished
+				w.c.Count("jc.observed.ttl-delete-pass-recomputed-finish-time")
+			}
+			if cf != nil && cf.FinishTimestamp.Add(ttl).UnixNano() > w.ttlDeleteAt {
 				w.c.Violate("C13", "ttl-not-early", "Job deleted at %d before finish %d + ttl %v", w.ttlDeleteAt, cf.FinishTimestamp.UnixNano(), ttl)
 			}
 			// ... and the finish time itself is the moment the LAST task finished (ground truth: the
@@ -339,6 +353,7 @@ func (w *jobctlWorld) work() {
 		}
 		w.ttlDeleteAt = 0
 	}
+	w.ttlPassStatus = nil
 	w.monitorJobVersion()
 }
 
@@ -367,11 +382,16 @@ func (w *jobctlWorld) oracleDecided() string {
 		if a == nil {
 			continue
 		}
+		// an object of that name that is not controlled by the Job is not the task: in the pod cache
+		// it counts as a cache miss, on the server as "the task is gone"
 		var pod *corev1.Pod
-		if o, ok := w.ctx.Sim().Pods().CacheGet(&corev1.Pod{ObjectMeta: metav1.ObjectMeta{Namespace: "ns", Name: r.Name}}); ok {
+		if o, ok := w.ctx.Sim().Pods().CacheGet(&corev1.Pod{ObjectMeta: metav1.ObjectMeta{Namespace: "ns", Name: r.Name}}); ok && w.ownedBy(o.(*corev1.Pod)) {
 			pod = o.(*corev1.Pod)
 		} else if r.FinishTimestamp.IsZero() {
 			pod = w.apiPod(r.Name)
+		}
+		if pod != nil && !w.ownedBy(pod) {
+			pod = nil
 		}
 		switch {
 		case pod != nil && pod.Status.Phase == corev1.PodSucceeded && !podOOM(pod):
@@ -674,6 +694,12 @@ func podAlive(p *corev1.Pod) bool {
 	return p.Status.Phase != corev1.PodSucceeded && p.Status.Phase != corev1.PodFailed
 }
 
+// ownedBy: the pod's controller owner reference is a Job with this Job's uid.
+func (w *jobctlWorld) ownedBy(p *corev1.Pod) bool {
+	ref := metav1.GetControllerOf(p)
+	return ref != nil && ref.Kind == execution.KindJob && string(ref.UID) == w.uid
+}
+
 func (w *jobctlWorld) ownedPods() []*corev1.Pod {
 	var out []*corev1.Pod
 	for _, k := range w.api.Keys("pods") {
@@ -836,9 +862,17 @@ func (w *jobctlWorld) monitorCall(c sim.Call) {
 			w.c.Count("jc.pod-force-delete")
 		}
 		w.monitorPodDelete(name, c.Force)
+	case c.Verb == "update" && c.Resource == "jobs" && c.Subresource == "status" && c.Result != "ok":
+		// a status write behind the TTL delete of the same pass: what the pass computed and acted on
+		if sj, ok := c.Obj.(*execution.Job); ok && w.ttlDeleteAt != 0 {
+			w.ttlPassStatus = sj.Status.DeepCopy()
+		}
 	case c.Verb == "update" && c.Resource == "jobs" && c.Subresource == "status" && c.Result == "ok":
 		if sj, ok := c.Obj.(*execution.Job); ok {
 			w.monitorPendingMarkers(sj)
+			if w.ttlDeleteAt != 0 {
+				w.ttlPassStatus = sj.Status.DeepCopy()
+			}
 		}
 	case c.Verb == "delete" && c.Resource == "jobs" && c.Result == "ok":
 		w.c.Count("jc.job-ttl-delete")
@@ -870,11 +904,19 @@ func (w *jobctlWorld) monitorCall(c sim.Call) {
 func (w *jobctlWorld) monitorPodDelete(name string, force bool) {
 	cj := w.cachedJob
 	pod := w.apiPod(name) // the observer runs before the delete is applied
-	if cj == nil || pod == nil || cj.Spec.Template == nil {
+	if pod != nil && !w.ownedBy(pod) {
+		// C09: an object that is not controlled by the Job is never deleted by it.  The delete is
+		// issued by NAME (no uid precondition): when the pod cache still serves the Job's own,
+		// vanished pod of that name, the sync could not know (pod-cache lag: observed, not claimed).
+		if o, ok := w.ctx.Sim().Pods().CacheGet(&corev1.Pod{ObjectMeta: metav1.ObjectMeta{Namespace: "ns", Name: name}}); ok && w.ownedBy(o.(*corev1.Pod)) {
+			w.c.Count("jc.observed.foreign-deleted-through-stale-pod-cache")
+			return
+		}
+		w.c.Violate("C09", "foreign-not-touched", "the controller deleted pod %s (force=%v), which is not controlled by the Job", name, force)
 		return
 	}
-	if ref := metav1.GetControllerOf(pod); ref == nil || string(ref.UID) != w.uid {
-		return // a foreign object: judged by the C09 monitors
+	if cj == nil || pod == nil || cj.Spec.Template == nil {
+		return
 	}
 	seen := pod
 	if o, ok := w.ctx.Sim().Pods().CacheGet(&corev1.Pod{ObjectMeta: metav1.ObjectMeta{Namespace: "ns", Name: name}}); ok {
@@ -1100,6 +1142,13 @@ func (w *jobctlWorld) monitorJobVersion() {
 			w.c.Violate("C09", "own-task-not-refused", "Job marked with an admission error although no foreign object ever occupied one of its task names")
 		}
 	}
+	// C09: the status never takes a task's outcome from a foreign object that took the task's
+	// name: a recorded task can only be reported Succeeded if the Job's OWN pod succeeded
+	for name := range w.foreignRec {
+		if cr, ok := cur[name]; ok && cr.Status.Result == execution.TaskSucceeded && !w.ownSucceeded[name] && !w.staleRecreate {
+			w.c.Violate("C09", "foreign-not-adopted", "task %s is recorded %s/%s although the Job's own pod never succeeded: the outcome was read from the foreign pod that took its name", name, cr.Status.State, cr.Status.Result)
+		}
+	}
 	// C09: a task whose object still exists (and is not terminal) is never recorded lost/finished
 	{
 		for name, cr := range cur {
@@ -1192,7 +1241,7 @@ func runJobCtl(c *Ctx) {
 func i64p(v int64) *int64 { return &v }
 
 func jobctlCase(c *Ctx, rng *rand.Rand) {
-	w := &jobctlWorld{c: c, rng: rng, podsCreated: map[string]int64{}, foreign: map[string]bool{}}
+	w := &jobctlWorld{c: c, rng: rng, podsCreated: map[string]int64{}, foreign: map[string]bool{}, foreignRec: map[string]bool{}, ownSucceeded: map[string]bool{}}
 	w.ctx = sim.NewContext()
 	w.clk = fakeclock.NewFakeClock(sim.VirtualBase.Add(time.Duration(rng.Intn(100000)) * time.Second))
 	ktime.Clock = w.clk
@@ -1339,6 +1388,9 @@ func jobctlCase(c *Ctx, rng *rand.Rand) {
 		}
 	}
 	for step := 0; step < nsteps; step++ {
+		if rng.Intn(100) == 0 && w.foreignOnRecordedName() {
+			continue
+		}
 		r := rng.Intn(100)
 		if laggy != "" && r >= 45 && r < 52 || laggy != "" && r >= 94 && rng.Intn(4) > 0 {
 			// instead of a full flush / settle: catch up only the resource that is not lagging
@@ -1472,6 +1524,57 @@ func jobctlCase(c *Ctx, rng *rand.Rand) {
 	}
 }
 
+// foreignOnRecordedName (F22): somebody else creates a pod under the name of a task that is RECORDED
+// in the Job's status — normally after that task's own pod vanished (when none has, one of them is
+// often made to vanish first: node lost / manual delete), sometimes while it still exists (the create
+// is then refused with AlreadyExists and nothing changes).  The foreign pod has no owner or is
+// controlled by another Job, and an empty or Succeeded phase.
+func (w *jobctlWorld) foreignOnRecordedName() bool {
+	jj := w.apiJob()
+	if jj == nil || len(jj.Status.Tasks) == 0 {
+		return false
+	}
+	var gone, present []string
+	for _, r := range jj.Status.Tasks {
+		if w.apiPod(r.Name) == nil {
+			gone = append(gone, r.Name)
+		} else if w.ownedBy(w.apiPod(r.Name)) {
+			present = append(present, r.Name)
+		}
+	}
+	name := ""
+	switch {
+	case len(present) > 0 && (len(gone) == 0 || w.rng.Intn(4) == 0):
+		name = present[w.rng.Intn(len(present))]
+		if w.rng.Intn(3) > 0 {
+			w.kubelet(w.apiPod(name), 6) // the task's own pod vanishes first
+		}
+	case len(gone) > 0:
+		name = gone[w.rng.Intn(len(gone))]
+	default:
+		return false
+	}
+	fp := &corev1.Pod{ObjectMeta: metav1.ObjectMeta{Namespace: "ns", Name: name}}
+	if w.rng.Intn(2) == 0 { // controlled by another Job
+		tr := true
+		fp.OwnerReferences = []metav1.OwnerReference{{APIVersion: execution.GroupVersion.String(), Kind: execution.KindJob, Name: "other", UID: "other-uid", Controller: &tr}}
+	}
+	_, err := w.api.Create("pods", fp, false)
+	w.c.Emit(fmt.Sprintf("jc.foreign %s %s", name, B(len(fp.OwnerReferences) > 0)), w.state())
+	if err != nil {
+		w.c.Count("jc.foreign-on-recorded.exists")
+		return true
+	}
+	w.foreign[name], w.foreignRec[name] = true, true
+	w.c.Count("jc.foreign-on-recorded")
+	if w.rng.Intn(2) == 0 {
+		w.api.Mutate("pods", "ns/"+name, func(o runtime.Object) { o.(*corev1.Pod).Status.Phase = corev1.PodSucceeded })
+		w.c.Emit(fmt.Sprintf("jc.pod %s %s", name, podDigest(w.apiPod(name))), w.state())
+		w.c.Count("jc.foreign-on-recorded.succeeded")
+	}
+	return true
+}
+
 func (w *jobctlWorld) flush() {
 	w.api.DeliverAll(w.ctx.Sim())
 	w.c.Emit("jc.flush", w.state())
@@ -1531,6 +1634,7 @@ func (w *jobctlWorld) kubelet(p *corev1.Pod, action int) {
 			case 0, 1:
 				pp.Status.Phase = corev1.PodSucceeded
 				term.Reason = "Completed"
+				w.ownSucceeded[p.Name] = true
 			case 2:
 				pp.Status.Phase = corev1.PodFailed
 				term.Reason = "Error"
@@ -1672,12 +1776,23 @@ func (w *jobctlWorld) finalMonitors() {
 			w.c.Violate("C09", "never-forgotten", "live pod %s owned by the Job is not listed in status.tasks at quiescence (Job phase %s)", p.Name, j.Status.Phase)
 		}
 	}
-	// C09: foreign objects are never adopted
+	// C09: foreign objects are never adopted.  A name that was never one of the Job's tasks is never
+	// listed.  A name that WAS recorded for the Job's own pod stays listed when a foreign pod takes it
+	// after that pod vanished; the ref must then be what a vanished task gets — finished (lost, or
+	// its recorded final state) — and not live through the foreign object.
 	for name := range w.foreign {
-		if listed[name] {
-			if p := w.apiPod(name); p != nil {
-				if ref := metav1.GetControllerOf(p); ref == nil || string(ref.UID) != w.uid {
-					w.c.Violate("C09", "foreign-not-adopted", "foreign pod %s is listed in status.tasks", name)
+		p := w.apiPod(name)
+		if !listed[name] || p == nil || w.ownedBy(p) {
+			continue
+		}
+		if !w.foreignRec[name] {
+			w.c.Violate("C09", "foreign-not-adopted", "foreign pod %s is listed in status.tasks", name)
+			continue
+		}
+		if w.q.NextDeadline() == 0 && w.q.Len() == 0 && jobutil.IsStarted(j) && j.DeletionTimestamp == nil && !w.staleRecreate {
+			for _, r := range j.Status.Tasks {
+				if r.Name == name && r.FinishTimestamp.IsZero() {
+					w.c.Violate("C09", "foreign-not-adopted", "task %s vanished and a foreign pod took its name: at quiescence the ref is still unfinished (%s), it follows the foreign pod", name, r.Status.State)
 				}
 			}
 		}
